@@ -1027,12 +1027,16 @@ class Integer(Type):
         super(Integer, self).__init__(name, 'INTEGER')
         self.minimum = None
         self.maximum = None
+        self.root_minimum = None
+        self.root_maximum = None
         self.has_extension_marker = False
         self.number_of_bits = None
         self.number_of_indefinite_bits = None
 
     def set_restricted_to_range(self, minimum, maximum, has_extension_marker):
         self.has_extension_marker = has_extension_marker
+        self.root_minimum = minimum
+        self.root_maximum = maximum
 
         if minimum == 'MIN' or maximum == 'MAX':
             return
@@ -1050,7 +1054,7 @@ class Integer(Type):
 
     def encode(self, data, encoder):
         if self.has_extension_marker:
-            if self.minimum <= data <= self.maximum:
+            if is_in_size_range(self.root_minimum, self.root_maximum, data):
                 encoder.append_bit(0)
             else:
                 encoder.append_bit(1)
